@@ -1,0 +1,93 @@
+//go:build verif
+
+package server
+
+// Test hooks for the external verification harness (build tag "verif").
+// Add-only: thin exported wrappers around the unexported request handler and a
+// read-only view of the timestamp store taken under tssMu.
+
+import (
+	"time"
+
+	"example.com/scion-time/net/ntp"
+)
+
+const (
+	TssCapV     = tssCap
+	TssItemCapV = tssItemCap
+)
+
+type PairV struct {
+	Rx, Tx ntp.Time64
+}
+
+type ItemV struct {
+	Key   string
+	Pairs []PairV
+	Qval  ntp.Time64
+	Qidx  int
+}
+
+func HandleRequestV(clientID string, req *ntp.Packet, rxt, txt *time.Time, resp *ntp.Packet) {
+	handleRequest(clientID, req, rxt, txt, resp)
+}
+
+func UpdateTXTimestampV(clientID string, rxt time.Time, txt *time.Time) {
+	updateTXTimestamp(clientID, rxt, txt)
+}
+
+func itemV(tssi *tssItem, pairs []PairV) ItemV {
+	pairs = pairs[:0]
+	for i := 0; i != tssi.len; i++ {
+		pairs = append(pairs, PairV{Rx: tssi.buf[i].rxt, Tx: tssi.buf[i].txt})
+	}
+	return ItemV{Key: tssi.key, Pairs: pairs, Qval: tssi.qval, Qidx: tssi.qidx}
+}
+
+// LookupV returns a copy of the state kept for clientID.
+func LookupV(clientID string) (ItemV, bool) {
+	tssMu.Lock()
+	defer tssMu.Unlock()
+	tssi, ok := tss[clientID]
+	if !ok {
+		return ItemV{}, false
+	}
+	return itemV(tssi, nil), true
+}
+
+// LenV returns the sizes of the client map and of the priority queue.
+func LenV() (nmap, nqueue int) {
+	tssMu.Lock()
+	defer tssMu.Unlock()
+	return len(tss), len(tssQ)
+}
+
+// VisitV calls f for every queue position in heap (slice) order while holding
+// tssMu; inMap reports whether the client map refers to the very same item.
+// The Pairs slice is reused between calls.
+func VisitV(f func(pos int, it ItemV, inMap bool) bool) {
+	tssMu.Lock()
+	defer tssMu.Unlock()
+	var pairs []PairV
+	for pos, tssi := range tssQ {
+		it := itemV(tssi, pairs)
+		pairs = it.Pairs
+		if !f(pos, it, tss[tssi.key] == tssi) {
+			return
+		}
+	}
+}
+
+// LessV exposes the queue's ordering of two timestamps.
+func LessV(a, b ntp.Time64) bool { return a.Before(b) }
+
+// ResetV empties the timestamp store.
+func ResetV() {
+	tssMu.Lock()
+	defer tssMu.Unlock()
+	clear(tss)
+	for i := range tssQ {
+		tssQ[i] = nil
+	}
+	tssQ = tssQ[:0]
+}
